@@ -10,7 +10,9 @@ C01 driver: a stateful line protocol (one output line per input line).
        arg = i:<dec> | b:<0|1> | s:<hex>
        answer: <event;event;…>|<outcome>|<name=value …>   (globals of scalar type, by name)
        outcome = RET v… | PANIC rt:<kind> | PANIC custom:<type>:<value> | SKIP <why> | FUEL
-  LIFT <modeN> <modeL> <hex function name> c=<vid,…> r=<nvid:lvid,…> m=<key:lvid;…> …
+  LIFT <modeN> <modeL> <hex function name> c=<vid,…> r=<nvid:lvid,…> sn=<spec,…> m=<key:lvid;…> …
+       spec = <alloc vid>@<before id>:<t>:<r>+…@<world access id>+… : a partially escaping Alloc of the naive
+       function, its sync points and its object accesses (see Abstract.lean)
        stage B: abstract the function of both dumps into the core calculus (the Allocs c= of the
        naive one as private cells) and run the proved validator `Core.liftCheck` with the register
        relation r= and one entry map m= per block (key = c<vid> cell | l<vid> load register; the
@@ -106,6 +108,18 @@ def parseRhoTok (t : String) : Option Core.Rho :=
       | _ => none
   else none
 
+/-- `<alloc>@<before>:<t>:<r>+…@<world id>+…` -/
+def parseSplitTok (pre : String) (t : String) : Option (List SplitSpec) :=
+  if t.startsWith pre then
+    (splitList (t.drop pre.length).toString ",").mapM fun e => match e.splitOn "@" with
+      | [a, ps, ws] => do
+        let pubs ← (splitList ps "+").mapM fun x => match x.splitOn ":" with
+          | [b, t, r] => do pure ((← b.toNat?), (← t.toNat?), (← r.toNat?))
+          | _ => none
+        pure { addr := (← a.toNat?), pubs := pubs, world := (← parseNats (splitList ws "+")) }
+      | _ => none
+  else none
+
 def parseKey (s : String) : Option Core.Key :=
   if s.startsWith "c" then (s.drop 1).toString.toNat?.map .cell
   else if s.startsWith "l" then (s.drop 1).toString.toNat?.map .lreg
@@ -125,19 +139,19 @@ def parseMapTok (p : Prog) (fL : Fn) (t : String) : Option Core.KMap :=
 
 def findFn (p : Prog) (name : String) : Option Fn := p.fns.toList.find? (fun f => f.name == name)
 
-def runLift (pN pL : Prog) (fname : String) (cellsT rhoT : String) (maps : List String) : String :=
-  match findFn pN fname, findFn pL fname, parseCellsTok cellsT, parseRhoTok rhoT with
-  | some fN, some fL, some cells, some rho =>
+def runLift (pN pL : Prog) (fname : String) (cellsT rhoT snT : String) (maps : List String) : String :=
+  match findFn pN fname, findFn pL fname, parseCellsTok cellsT, parseRhoTok rhoT, parseSplitTok "sn=" snT with
+  | some fN, some fL, some cells, some rho, some sn =>
     match maps.mapM (parseMapTok pL fL) with
     | none => "bad-op"
     | some cert =>
-      match toCore pN fN cells, toCore pL fL [] with
+      match toCore pN fN cells sn, toCore pL fL [] with
       | .error e, _ => "lift error N " ++ sanitize e
       | _, .error e => "lift error L " ++ sanitize e
       | .ok cn, .ok cl =>
         if Core.liftCheck cn cl rho cert then "lift ok"
         else "lift reject " ++ sanitize (liftWhy cn cl rho cert)
-  | _, _, _, _ => "bad-op"
+  | _, _, _, _, _ => "bad-op"
 
 def dstep (s : DState) (line : String) : DState × String :=
   match tokens line with
@@ -154,9 +168,9 @@ def dstep (s : DState) (line : String) : DState × String :=
       | some p => ({ progs := (m, p) :: s.progs.filter (·.1 != m), cur := none }, "ok")
       | none => (s, "bad-op")
     | none => (s, "bad-op")
-  | "LIFT" :: mN :: mL :: fname :: cellsT :: rhoT :: maps =>
+  | "LIFT" :: mN :: mL :: fname :: cellsT :: rhoT :: snT :: maps =>
     match s.progs.lookup mN, s.progs.lookup mL, hexDecode fname with
-    | some pN, some pL, some fname => (s, runLift pN pL fname cellsT rhoT maps)
+    | some pN, some pL, some fname => (s, runLift pN pL fname cellsT rhoT snT maps)
     | _, _, _ => (s, "bad-op")
   | "RUN" :: m :: fname :: steps :: args =>
     match s.progs.lookup m, hexDecode fname, steps.toNat?, parseArgs args with
